@@ -246,6 +246,34 @@ def every_globbed_file_listed(ctx, rep, R):
                "the comprehension over the glob filters the files (`%s`)" % norm(c)[:80])
 
 
+@SPEC.rule(
+    "R27.7",
+    "every class of the other tree ends up somewhere: each iteration of the loop of Class._extend over the other class's members adopts the "
+    "member (a store into self.classes) or merges it (a recursive _extend) — a third case that does neither (`both already have the same "
+    "members`) drops what is different one level further down, for some file orders only",
+)
+def r27_7(ctx, rep):
+    from ..cfg import CFG, iteration_skips
+    R = "R27.7"
+    fn = ctx.func(AST, "Class._extend", R)
+    site = AST + ":Class._extend"
+    cfg = CFG(fn, R)
+    loops = [lp for lp in walk_local(fn) if isinstance(lp, ast.For) and ".classes" in norm(lp.iter)]
+    if not loops:
+        raise MechanismMissing(R, "the loop over the other class's members was not found in Class._extend")
+    for lp in loops:
+        def handled(x):
+            if x.kind != "stmt":
+                return False
+            if isinstance(x.ast, ast.Assign) and any(isinstance(t, ast.Subscript) and norm(t.value).endswith(".classes") for t in x.ast.targets):
+                return True
+            return any(isinstance(c.func, ast.Attribute) and c.func.attr == "_extend" for c in calls(x.ast))
+        w = iteration_skips(cfg, lp, handled)
+        rep.ob(R, site, "every member of the other class is adopted or merged", w is None,
+               "an iteration over the other class's members can end without a store into self.classes and without a recursive _extend",
+               path=cfg.describe(w) if w else "")
+
+
 # -- seeded variants ---------------------------------------------------------
 from ._mut import delete_stmt_where, replace_in_func  # noqa: E402
 
